@@ -23,17 +23,29 @@ class DominanceInfo:
         if not (region.blocks):
             return
 
+        # Get entry and other blocks
+        entry, *blocks = region.blocks
+
+        # Only blocks reachable from the entry block lie on a path from the entry,
+        # so only they can constrain the dominators of their successors
+        reachable: set[Block] = {entry}
+        worklist = [entry]
+        while worklist:
+            b = worklist.pop()
+            if b.last_op is not None:
+                for s in b.last_op.successors:
+                    if s not in reachable:
+                        reachable.add(s)
+                        worklist.append(s)
+
         # Build the preceding relationship
         pred: dict[Block, set[Block]] = {}
         for b in region.blocks:
             pred[b] = set()
         for b in region.blocks:
-            if b.last_op is not None:
+            if b in reachable and b.last_op is not None:
                 for s in b.last_op.successors:
                     pred[s].add(b)
-
-        # Get entry and other blocks
-        entry, *blocks = region.blocks
 
         # The entry block is only dominated by itself
         self._dominance[entry] = {entry}
